@@ -219,6 +219,7 @@ type c13Case struct {
 	Script string   `json:"script"`
 	Kind   string   `json:"kind"`
 	Want   string   `json:"want,omitempty"`
+	Cuts   []int    `json:"cuts,omitempty"`
 }
 
 func seqNames(seq []int) []string {
@@ -389,11 +390,97 @@ func c13JudgeMW(pool *sb.Pool, rec *sb.Rec, prios []int) *failure {
 	return nil
 }
 
+// c13JudgeSplit: the same operation sequence, split over closure middlewares and the route handler
+// (before-$next parts outermost first, then the handler, then the after-$next parts innermost first),
+// must give the client exactly what the model gives for the whole sequence in one handler: commit
+// state belongs to the request, not to the layer that happens to hold the response object.
+func c13JudgeSplit(pool *sb.Pool, rec *sb.Rec, seq []int, cuts []int, eff []opEffect) *failure {
+	// cuts: ascending positions; with k middlewares there are 2k cuts: before_1..before_k | handler | after_k..after_1
+	k := len(cuts) / 2
+	parts := make([][]int, 0, 2*k+1)
+	prev := 0
+	for _, c := range cuts {
+		parts = append(parts, seq[prev:c])
+		prev = c
+	}
+	parts = append(parts, seq[prev:])
+	// when neither a middleware's before-part nor the handler commits, the server commits the pending
+	// status when the handler returns; what a middleware's after-part can still change is then not
+	// stated by the property: such splits are not judged
+	committed, afterOps := false, 0
+	for i, p := range parts {
+		for _, op := range p {
+			if i <= k && respOps[op].Name != "status201" && respOps[op].Name != "status404" && respOps[op].Name != "headerA" && respOps[op].Name != "headerB" && respOps[op].Name != "cookie" {
+				committed = true
+			}
+			if i > k {
+				afterOps++
+			}
+		}
+	}
+	if afterOps > 0 && !committed {
+		rec.Label("split.not-judged(after-part without an earlier commit)", "")
+		return nil
+	}
+	ops := func(p []int) string {
+		var b strings.Builder
+		for _, op := range p {
+			b.WriteString(" " + respOps[op].Src)
+		}
+		return b.String()
+	}
+	var sbd strings.Builder
+	sbd.WriteString("<?php\nuse Net\\Http\\Server;\n$server = new Server('127.0.0.1', 0);\n")
+	for i := 0; i < k; i++ {
+		fmt.Fprintf(&sbd, "$server->middleware(function ($req, $res, $next) {%s $next($req, $res);%s }, %d);\n", ops(parts[i]), ops(parts[2*k-i]), i)
+	}
+	fmt.Fprintf(&sbd, "$server->get('/m', function ($req, $res) {%s });\n", ops(parts[k]))
+	script := sbd.String()
+	b, _ := json.Marshal(respCfg{Script: script, URLs: []string{"/m"}})
+	rep := pool.Exec(&sb.Req{Kind: "resp", Data: b, DeadlineMs: 30000})
+	rec.Eval()
+	cs := c13Case{Seq: seqNames(seq), Ops: seq, Script: script, Kind: "split", Cuts: cuts}
+	if rep.Outcome != sb.OK {
+		if rep.Outcome == sb.Infra {
+			rec.InfraProblem("%s", clip(rep.Msg, 300))
+			return nil
+		}
+		return &failure{Key: "cell:split:process:" + rep.Outcome, Detail: clip(rep.Msg, 200), Case: cs}
+	}
+	var out []respObs
+	json.Unmarshal(rep.Data, &out)
+	if len(out) != 1 {
+		return nil
+	}
+	o := out[0]
+	want := respModel(seq, eff)
+	if o.Panic != "" {
+		return &failure{Key: "cell:split:panic", Detail: fmt.Sprintf("%v split at %v panicked: %s", cs.Seq, cuts, o.Panic), Case: cs}
+	}
+	if o.Commits > 1 {
+		return &failure{Key: "cell:split:double-commit", Detail: fmt.Sprintf("%v split at %v: the underlying writer saw %d WriteHeader calls\n%s", cs.Seq, cuts, o.Commits, script), Case: cs}
+	}
+	if ws, gs := obsString(want), obsString(o); ws != gs {
+		what := "status"
+		switch {
+		case want.Status != o.Status:
+		case want.Body != o.Body:
+			what = "body"
+		case want.Commits != o.Commits:
+			what = "commit-count"
+		default:
+			what = "headers"
+		}
+		return &failure{Key: "cell:split:" + what, Detail: fmt.Sprintf("%v split over %d middleware(s) at %v:\n  model (one handler): %s\n  client:              %s\n%s", cs.Seq, k, cuts, ws, gs, script), Case: cs}
+	}
+	return nil
+}
+
 func TestC13(t *testing.T) {
 	cfg := sb.LoadConfig("C13")
 	rec := sb.NewRec(cfg)
 	defer rec.Flush()
-	rec.R.Rule = "complete enumeration of all operation sequences up to length 4 (thorough: 6, sequences identical up to renaming the two header names / two status codes visited once) over 11 response operations {status(201), status(404), header(X-A), header(X-B), cookie, write, json, html, redirect, noContent, writeHeader(202)}, each a route handler (500 routes per VM) served through an instrumented ResponseWriter; rapid sequences of length 7..12; all middleware stacks of <= 5 entries with priorities from {-1,0,0,1,5} in all registration orders. Non-trivial = a status/header operation after the first body/terminal operation, or two terminal operations; distinct by sequence."
+	rec.R.Rule = "complete enumeration of all operation sequences up to length 4 (thorough: 6, sequences identical up to renaming the two header names / two status codes visited once) over 11 response operations {status(201), status(404), header(X-A), header(X-B), cookie, write, json, html, redirect, noContent, writeHeader(202)}, each a route handler (500 routes per VM) served through an instrumented ResponseWriter; rapid sequences of length 7..12; all middleware stacks of <= 5 entries with priorities from {-1,0,0,1,5} in all registration orders and random stacks of 6..24 entries with priorities from {0,1,2}; every sequence of length 2..3 (and random ones up to 8) split over 1-2 closure middlewares (before $next / handler / after $next) and compared with the model of the unsplit sequence. Non-trivial = a status/header operation after the first body/terminal operation, or two terminal operations; distinct by sequence."
 	pool := &sb.Pool{}
 	defer pool.Close()
 	dl := time.Now().Add(budget(cfg, 60, 800))
@@ -411,6 +498,12 @@ func TestC13(t *testing.T) {
 		json.Unmarshal(rf.Case, &c)
 		rec.NonTrivial(fmt.Sprint(c.Seq), c.Script)
 		rec.NonTrivial(fmt.Sprint(c.Seq), c.Script, "r")
+		if c.Kind == "split" {
+			if f := c13JudgeSplit(pool, rec, c.Ops, c.Cuts, eff); f != nil {
+				rec.Fail(rf.Key, f.Detail, f.Case)
+			}
+			return
+		}
 		if c.Kind == "middleware" {
 			// priorities are embedded in the script; re-derive by serving it
 			b, _ := json.Marshal(respCfg{Script: c.Script, URLs: []string{"/m"}})
@@ -508,6 +601,66 @@ func TestC13(t *testing.T) {
 	if cfg.Thorough() {
 		total = 40000 / cfg.NShards
 	}
+	// split sequences: every sequence of length <= 3 over every placement of one middleware's cuts (quick: a
+	// rotating share), then random ones with 1-2 middlewares
+	splitIdx := 0
+	var gsplit func(prefix []int)
+	gsplit = func(prefix []int) {
+		if n := len(prefix); n >= 2 {
+			for a := 0; a <= n; a++ {
+				for b := a; b <= n; b++ {
+					if a == 0 && b == n {
+						continue // everything in the handler: the plain case
+					}
+					splitIdx++
+					if !cfg.Mine(splitIdx) || (!cfg.Thorough() && (splitIdx/cfg.NShards)%4 != 0) || time.Now().After(dl) {
+						continue
+					}
+					rec.NonTrivial("split", fmt.Sprint(prefix, a, b))
+					rec.Label("split.1mw", "")
+					if f := c13JudgeSplit(pool, rec, append([]int{}, prefix...), []int{a, b}, eff); f != nil {
+						rec.Fail(f.Key, f.Detail, f.Case)
+					}
+				}
+			}
+		}
+		if len(prefix) == 3 {
+			return
+		}
+		for op := range respOps {
+			gsplit(append(prefix, op))
+		}
+	}
+	gsplit(nil)
+	rec.Flush()
+	rapidLoop(t, rec, "split", total/2+1, 50, dl, func(rt *rapid.T) *failure {
+		seq := rapid.SliceOfN(rapid.IntRange(0, len(respOps)-1), 2, 8).Draw(rt, "seq")
+		k := rapid.IntRange(1, 2).Draw(rt, "nmw")
+		cuts := rapid.SliceOfN(rapid.IntRange(0, len(seq)), 2*k, 2*k).Draw(rt, "cuts")
+		sort.Ints(cuts)
+		rec.NonTrivial("split", fmt.Sprint(seq, cuts))
+		rec.Label(fmt.Sprintf("split.%dmw", k), "")
+		if f := c13JudgeSplit(pool, rec, seq, cuts, eff); f != nil {
+			if !rec.IsKnown(f.Key) {
+				return f
+			}
+			rec.Fail(f.Key, f.Detail, f.Case)
+		}
+		return nil
+	})
+	// large middleware stacks with many ties (an unstable sort only shows beyond a dozen entries)
+	rapidLoop(t, rec, "bigstack", total/4+1, 25, dl, func(rt *rapid.T) *failure {
+		ps := rapid.SliceOfN(rapid.IntRange(0, 2), 6, 24).Draw(rt, "prios")
+		rec.NonTrivial("mwbig", fmt.Sprint(ps))
+		rec.Label(fmt.Sprintf("middleware.big>=13:%v", len(ps) >= 13), "")
+		if f := c13JudgeMW(pool, rec, ps); f != nil {
+			if !rec.IsKnown(f.Key) {
+				return f
+			}
+			rec.Fail(f.Key, f.Detail, f.Case)
+		}
+		return nil
+	})
 	rapidLoop(t, rec, "long", total, 100, dl, func(rt *rapid.T) *failure {
 		seq := rapid.SliceOfN(rapid.IntRange(0, len(respOps)-1), 7, 12).Draw(rt, "seq")
 		if seqNonTrivial(seq) {
